@@ -38,7 +38,7 @@ func tupleTables(c *Check) map[string][]tupleComp {
 		}
 		var comps []tupleComp
 		found := false
-		for _, cs := range c.P.CallsIn(fn) {
+		for _, cs := range c.P.CallsInOwn(fn) {
 			if strings.HasSuffix(cs.Name, "accounts/abi.NewType") {
 				args := c.P.ArgExprs(cs)
 				if len(args) == 3 && args[0].String() == `"tuple"` && args[2].Op == "list" {
@@ -66,7 +66,7 @@ func tupleTables(c *Check) map[string][]tupleComp {
 		}
 		for _, b := range fn.Blocks {
 			for _, ins := range b.Instrs {
-				if st, ok := ins.(*ssa.Store); ok {
+				if st, ok := ins.(*ssa.Store); ok && !c.P.IsClone(ins) {
 					if g, ok := st.Addr.(*ssa.Global); ok {
 						out[g.Name()] = comps
 					}
